@@ -538,6 +538,12 @@ func (c *cluster) logOf(n *simNode) (map[int64]string, int64, int64) {
 	if p == nil {
 		return nil, -1, -1
 	}
+	if c.h.s.IsStalled(n.node) {
+		// a stalled server executes nothing, the harness's reading task on it included: no view now (waiting
+		// for the view would wait the stall out, and nothing would ever happen *during* a stall)
+		c.h.s.Count("probe.view_skipped_server_stalled")
+		return nil, -1, -1
+	}
 	out := map[int64]string{}
 	var hw, newest int64 = -1, -1
 	died := c.h.do(n.node, "read-log", func() {
